@@ -861,8 +861,8 @@ func (r *vpRun) build(w *vpWorld) bool {
 	r.monitorVerdict(w, err)
 	if err != nil {
 		r.stats["build_err"]++
-		r.emit(op, w.showErr(err)+w.flushEvents())
 		r.monitorFailedBuild(w, err)
+		r.emit(op, w.showErr(err)+w.flushEvents())
 		return false
 	}
 	r.stats["build_ok"]++
@@ -1337,7 +1337,11 @@ func (r *vpRun) closeProvider(w *vpWorld, parentOf map[int]int) {
 			continue
 		}
 		if slotDisp(reg.outs[b.Out].slot) && b.closes.Load() != 1 {
-			w.fail("C10", "after Provider.Close instance i%d (constructor %d, %v, scope s%d) has been closed %d times", b.Inst, b.Ctor, b.Life, b.ScopeN, b.closes.Load())
+			props := "C10"
+			if bad { // some Close failed during this call: everything else must still have been attempted (C12)
+				props = "C10,C12"
+			}
+			w.fail(props, "after Provider.Close instance i%d (constructor %d, %v, scope s%d) has been closed %d times", b.Inst, b.Ctor, b.Life, b.ScopeN, b.closes.Load())
 		}
 	}
 	// C13: provider and all scopes refuse
